@@ -1333,6 +1333,9 @@ static void run_faults(void)
         for (int i = 0; i < 4; i++) sc[ns++] = (sstep_t){ 3, 0, (i * 3) % n };
         sc[ns++] = (sstep_t){ 0, 0, 0 };
         sc[ns++] = (sstep_t){ 1, 1u, 0 };
+        /* the fragment with the highest index lost as well: rebuilt alone, and lost together with data fragment 0 */
+        sc[ns++] = (sstep_t){ 2, 1u << (n - 1), n - 1 };
+        if (tol >= 2) sc[ns++] = (sstep_t){ 1, 1u | 1u << (n - 1), 0 };
         /* count calls of each op in a fault-free run */
         long total[6] = {0};
         if (mon_case_all("%s|fault-free-script", ck)) {
